@@ -339,6 +339,8 @@ def _install_recorders():
             rec['n_sa'] += 1
             rec['last'] = 'sa'
             rec['sa_phases'] = int(r[1])
+            rec['sa_K_in'] = np.array(a[12], dtype=float).tolist()
+            rec['sa_after_n_ss'] = rec['n_ss']
         return r
 
     def gle(m, M, K):
@@ -355,18 +357,32 @@ def _install_recorders():
     _W['installed'] = True
 
 
+def ref_constants(names):
+    """molar mass, critical pressure / temperature and acentric factor per compound from the harness's OWN reading of
+    /repo/tamoc/data/ChemData.csv in SI (c01.feed_tables: g/mol, psia, deg F converted there) — not from the object under test"""
+    import c01
+    crit = c01.feed_tables()['crit']
+    return {k: np.array([crit[n][k] for n in names], dtype=float) for k in ('M', 'Pc', 'Tc', 'omega')}
+
+
 def _fm(names):
+    """cached FluidMixture; its M is compared ONCE with the independent reading of ChemData.csv (a mismatch is carried in the
+    results of every feed evaluated with that object and reported as a violation)"""
     from tamoc import dbm
     key = tuple(names)
     if key not in _W['fm']:
-        _W['fm'][key] = dbm.FluidMixture(list(names))
+        fm = dbm.FluidMixture(list(names))
+        fm._ref = ref_constants(names)
+        fm._ref_mismatch = [k for k in ('M', 'Pc', 'Tc', 'omega')
+                            if not (np.shape(getattr(fm, k)) == fm._ref[k].shape and np.allclose(getattr(fm, k), fm._ref[k], rtol=1e-9, atol=0.))]
+        _W['fm'][key] = fm
     return _W['fm'][key]
 
 
 def _lnf(fm, x, T, P):
     """ln of the fugacities (2 x nc) of a phase of mole fractions x (entries with x = 0 excluded by the caller)"""
     with np.errstate(all='ignore'):
-        f = fm.fugacity(x * fm.M, T, P)
+        f = fm.fugacity(x * fm._ref['M'], T, P)      # masses of a phase of mole fractions x, with the INDEPENDENT molar masses
         return np.log(f)
 
 
@@ -409,9 +425,12 @@ def eval_feed(job):
     xi = np.array(xi, dtype=float)
     K = np.array(K, dtype=float)
     res['mm'], res['xi'], res['K'] = mm.tolist(), xi.tolist(), K.tolist()
-    res['M'] = fm.M.tolist()
+    Mref, Pcref, Tcref, omref = (fm._ref[k] for k in ('M', 'Pc', 'Tc', 'omega'))
+    res['M'] = Mref.tolist()
+    res['object_M'] = fm.M.tolist()
+    res['ref_mismatch'] = list(fm._ref_mismatch)
     nz = m > 0.
-    moles = m / fm.M
+    moles = m / Mref
     z = moles / np.sum(moles)
     res['z'] = z.tolist()
     # fugacities of the feed in both EOS rows
@@ -455,7 +474,7 @@ def eval_feed(job):
         rho = float(fm.density(m, T, P)[row, 0])
     Mbar = float(np.sum(m) / np.sum(moles))
     res['Z'] = P * Mbar / (rho * 8.314510 * T) if rho > 0. else float('nan')
-    res['Pr'] = P / float(np.sum(z * fm.Pc))
+    res['Pr'] = P / float(np.sum(z * Pcref))
     # tangent-plane distances: reference = the feed at its lower-Gibbs root
     fin = [math.isfinite(gz[0]), math.isfinite(gz[1])]
     if not (fin[0] or fin[1]):
@@ -468,7 +487,7 @@ def eval_feed(job):
     idx = np.where(nz)[0]
     zz = z[idx]
     with np.errstate(all='ignore'):
-        Kw = np.exp(5.37 * (1. + fm.omega) * (1. - fm.Tc / T)) / (P / fm.Pc)
+        Kw = np.exp(5.37 * (1. + omref) * (1. - Tcref / T)) / (P / Pcref)
     trials = []
     for w in (Kw * z, z / Kw):
         s = float(np.sum(w))
@@ -485,12 +504,21 @@ def eval_feed(job):
             d = np.array(scen_mix.dirichlet(r, len(idx), r.choice([0.3, 1., 3.])))
         w[idx] = d / np.sum(d)
         trials.append(('random', w))
+    tmin, targ, ntr, nskip = _tpd_search(fm, trials, ref, T, P, 15)
+    res['tpd'] = {'min': tmin, 'arg': targ, 'n': ntr, 'skipped': nskip}
+    if tmin < -TPD_NEG:
+        res['drifted_K_signature'] = _drifted_K_signature(fm, rec, z, nz, ref, Kw, T, P)
+    return res
+
+
+def _tpd_search(fm, trials, ref, T, P, niter):
+    """the harness's own tangent-plane evaluation: 'wilson'/'start' trials are followed along Michelsen's fixed-point map
+    W <- w exp(ln f(z) - ln f(w)) (niter iterates, each one a trial composition), 'random' trials are evaluated as they are.
+    Uses FluidMixture.fugacity as the equation of state only.  Returns (min tpd, where, trials evaluated, trials skipped)"""
     tmin, targ, nskip, ntr = 0., None, 0, 0
     for kind, w0 in trials:
-        # the two Wilson trials are followed along Michelsen's fixed-point map  W <- w exp(ln f(z) - ln f(w))  (15 iterates, each
-        # one is a trial composition); the random trials are evaluated as they are
         w = w0
-        for it in range(15 if kind == 'wilson' else 1):
+        for it in range(1 if kind == 'random' else niter):
             ntr += 1
             gw, lfw = _gibbs_rows(fm, w, T, P)
             fw = [math.isfinite(gw[0]), math.isfinite(gw[1])]
@@ -508,42 +536,78 @@ def eval_feed(job):
             sW = float(np.sum(Wn))
             if not (math.isfinite(sW) and sW > 0.):
                 break
-            w = Wn / sW
-    res['tpd'] = {'min': tmin, 'arg': targ, 'n': ntr, 'skipped': nskip}
+            wn = Wn / sW
+            if float(np.max(np.abs(wn - w))) < 1e-13:
+                break
+            w = wn
+    return tmin, targ, ntr, nskip
+
+
+def _drifted_K_signature(fm, rec, z, nz, ref, Kw, T, P):
+    """HARNESS-SIDE signature of the recorded finding "equil_MM hands the K drifted by successive substitution to the stability
+    test" (known_findings.txt), decided without running any of the code's flash routines:
+      (a) recorder: the flash ended with a stability_analysis call that reported ONE phase, and the K it was given is the K the
+          preceding successive_substitution call returned (not the Wilson estimate);
+      (b) the harness's own tangent-plane iteration started from exactly those trial phases (K z and z / K, up to 300 iterates)
+          finds NO negative tangent-plane distance — a correct stability test started there finds nothing either;
+      (c) the harness's own iteration started from the Wilson trial phases does find one (that is why we are here).
+    A new defect (stability test skipped, inverted, its verdict overridden, clean-up forcing beta) fails (a) or (b)."""
+    out = {'a_last_event_is_one_phase_stability_test_on_drifted_K': False, 'b_own_search_from_that_K_finds_nothing': None, 'min_tpd_from_that_K': None}
+    kin = rec.get('sa_K_in')
+    ssk = (rec.get('ss') or {}).get('K')
+    if not (rec.get('last') == 'sa' and rec.get('sa_phases') == 1 and kin is not None and ssk is not None):
+        return out
+    kin = np.array(kin, dtype=float)
+    kw = Kw[nz]
+    if not (len(kin) == int(np.sum(nz)) and np.all(np.isfinite(kin)) and np.all(kin > 0.)
+            and np.array_equal(kin, np.array(ssk, dtype=float)) and not np.allclose(kin, kw, rtol=1e-6, atol=0.)):
+        return out
+    out['a_last_event_is_one_phase_stability_test_on_drifted_K'] = True
+    Kfull = np.ones(len(z))
+    Kfull[nz] = kin
+    trials = []
+    for w in (Kfull * z, z / Kfull):
+        sw = float(np.sum(w))
+        if sw > 0. and math.isfinite(sw):
+            trials.append(('start', w / sw))
+    tmin, _arg, _n, _s = _tpd_search(fm, trials, ref, T, P, 300)
+    out['min_tpd_from_that_K'] = tmin
+    out['b_own_search_from_that_K_finds_nothing'] = bool(tmin >= -TPD_NEG)
     if tmin < -TPD_NEG:
-        res['wilson_stability'] = _wilson_signature(fm, m, T, P, nz, Kw, gz)
-    return res
-
-
-def _wilson_signature(fm, m, T, P, nz, Kw, gz):
-    """mechanism signature of the known finding 'stability test started from the drifted K': does the code's OWN
-    stability_analysis, started from the Wilson K instead, report two phases, and does its own successive_substitution
-    from there reach a split with a lower Gibbs energy than the single phase?"""
-    mi = np.where(nz)
-    out = {'phases': None, 'beta': None, 'dG': None}
-    try:
-        mr, M = m[mi], fm.M[mi]
-        args = (mr, T, P, M, fm.Pc[mi], fm.Tc[mi], fm.omega[mi], fm.delta[np.transpose(mi), mi], fm.Aij, fm.Bij,
-                fm.delta_groups[mi, :][0], fm.calc_delta)
-        zi = (mr / M) / np.sum(mr / M)
-        with np.errstate(all='ignore'):
-            from tamoc import dbm
-            f_zi = dbm.dbm_f.fugacity(T, P, zi * M, M, *args[4:])[0, :]
-            di = np.log(zi) + np.log(f_zi / (zi * P))
-            K_st, phases = call_with_budget(lambda: _W['orig']['sa'](*(args + (Kw[mi], zi, di))), 5.)
-            out['phases'] = int(phases)
-            if phases > 1:
-                r = call_with_budget(lambda: _W['orig']['ss'](*(args[:3] + (np.inf,) + args[3:] + (K_st,)), steps=5), 5.)
-                beta, x = float(r[1]), np.asarray(r[2], dtype=float)
-                out['beta'] = beta
-                if 0. < beta < 1.:
-                    fg = dbm.dbm_f.fugacity(T, P, x[0] * M, M, *args[4:])[0, :]
-                    fl = dbm.dbm_f.fugacity(T, P, x[1] * M, M, *args[4:])[1, :]
-                    G2 = beta * float(np.sum(x[0] * np.log(fg))) + (1. - beta) * float(np.sum(x[1] * np.log(fl)))
-                    G1 = min(g for g in gz if math.isfinite(g))
-                    out['dG'] = G2 - G1
-    except _Timeout:
-        out['timeout'] = True
+        # second recorded mechanism: find_W stops when the SQUARED relative step of W falls below 1.49012e-8, which a slowly moving
+        # iteration satisfies far from its stationary point.  Harness-side replica of that rule on the harness's own iteration
+        # (W_new = w exp(ln f(z) - ln f(w)) is the code's un-normalised W): does it halt, for BOTH starts, at a point whose modified
+        # tangent-plane distance is still >= 0 (or at the trivial point), although the continued iteration goes negative?
+        halts = []
+        for W in (Kfull * z, z / Kfull):
+            halted = None
+            for it in range(300):
+                sw = float(np.sum(W))
+                if not (sw > 0. and math.isfinite(sw)):
+                    break
+                w = W / sw
+                gw, lfw = _gibbs_rows(fm, w, T, P)
+                row = halts.__len__()          # the code uses the gas row for the first trial, the liquid row for the second
+                wz = w > 0.
+                if not np.all(np.isfinite(lfw[row][wz])):
+                    break
+                Wn = np.zeros(len(w))
+                Wn[wz] = w[wz] * np.exp(ref[wz] - lfw[row][wz])
+                with np.errstate(all='ignore'):
+                    err = float(np.nansum((Wn[wz] - W[wz]) ** 2 / (Wn[wz] * W[wz])))
+                W = Wn
+                if not err > 1.49012e-8:
+                    swn = float(np.sum(W))
+                    wn = W / swn
+                    _g, lfn = _gibbs_rows(fm, wn, T, P)
+                    tm = 1. + float(np.sum(W[wz] * (math.log(swn) + lfn[row][wz] - ref[wz] - 1.)))
+                    trivial = bool(np.all(np.abs(W[wz] - z[wz]) <= 1e-5))
+                    halted = {'iterations': it + 1, 'tm': tm, 'trivial': trivial}
+                    break
+            halts.append(halted)
+        out['replica_of_find_W_stop_rule'] = halts
+        out['c_stop_rule_halts_both_trials_before_any_negative_distance'] = bool(
+            len(halts) == 2 and all(h is not None and (h['tm'] >= 0. or h['trivial']) for h in halts) and any(h['iterations'] <= 5 for h in halts))
     return out
 
 
@@ -575,6 +639,10 @@ def gen_feeds(ctx):
     jobs.append({'composition': ['carbon_monoxide', 'carbon_dioxide', 'sulfure_dioxide'],
                  'm': [0.0013142110328569028, 0.0007748305974074905, 0.0005505485573648101], 'T': 276.42880859711073, 'P': 36899640.11949039,
                  'K0': None, 'tag': 'supercritical'})
+    # unstable feed reported as one phase because find_W's stop rule halts the stability iteration after 1-2 steps (found by the random search)
+    jobs.append({'composition': ['n-hexane', 'hydrogen', 'carbon_dioxide', 'carbon_monoxide', 'sulfure_dioxide'],
+                 'm': [9.760608639599061e-05, 0.001352275950284506, 0.000330265596207664, 0.0005457980144559225, 0.0012894363466453389],
+                 'T': 271.1149813679296, 'P': 36685500.165810615, 'K0': None, 'tag': 'hydrogen-rich'})
     # hydrogen-rich feeds at high pressure (the fixed one was found by the random search: reported as one phase, unstable)
     jobs.append({'composition': ['neohexane', 'n-decane', 'n-hexane', 'hydrogen', 'hydrogen_sulfide'],
                  'm': [0.14833924978240257, 0.014147196942160328, 0.5268357381769898, 0.9705940146954938, 1.3586451787102498],
@@ -647,6 +715,12 @@ def check_feed(ctx, res, lines, line_owner):
     if np.any(~nz):
         ctx.count('flash:with-zero-mass-components')
     rec = res['rec']
+    if res.get('ref_mismatch'):
+        ctx.violation('object-constants-differ-from-ChemData', 'FluidMixture.%s differs from the SI value read independently from tamoc/data/ChemData.csv'
+                      % '/'.join(res['ref_mismatch']), dict(case, object_M=res['object_M'], ChemData_M=res['M']))
+    if rec.get('mm') is not None and not close(list(rec['mm']['M']), list(np.array(res['M'])[nz]), 1e-9):
+        ctx.violation('equil_MM-called-with-wrong-molar-masses', 'the molar masses handed to equil_MM are not those of the non-zero components in ChemData.csv',
+                      dict(case, M_given=rec['mm']['M'], ChemData_M=list(np.array(res['M'])[nz])))
     if 'ss_consistent' in res:
         ctx.count('flash:ss-rows-compared-with-gas_liq_eq')
         if res['ss_consistent'] is False:
@@ -826,23 +900,28 @@ def single_phase_clauses(ctx, res, case, row):
     if t is not None:
         ctx.count('flash:tpd-trials', t['n'] - t['skipped'])
         if t['min'] < -TPD_NEG:
-            # mechanism signature of the known finding (equil_MM l.2616 starts the stability test from the drifted K): the code's own
-            # stability_analysis started from the WILSON K reports two phases and its own successive_substitution reaches a split of
-            # lower Gibbs energy.  Only that, for a hydrogen-rich feed at high pressure, goes under the specific key.
-            sig = res.get('wilson_stability') or {}
+            # the two listed keys are reserved for the recorded mechanism (equil_MM l.2616 starts the stability test from the drifted K),
+            # recognised by a HARNESS-SIDE signature (_drifted_K_signature: recorder + own tangent-plane search, none of the code's
+            # flash routines); everything else is a fresh violation under the generic key
+            sig = res.get('drifted_K_signature') or {}
             zh = float(z[c['composition'].index('hydrogen')]) if 'hydrogen' in c['composition'] else 0.
-            signature = sig.get('phases') == 2 and sig.get('dG') is not None and sig['dG'] < 0.
+            signature = bool(sig.get('a_last_event_is_one_phase_stability_test_on_drifted_K') and sig.get('b_own_search_from_that_K_finds_nothing'))
             specific = signature and zh >= 0.5 and c['P'] >= 3e7
-            ctx.count('flash:negative-tpd:' + ('signature-wilson-start-finds-split' if signature else 'no-signature'))
+            ctx.count('flash:negative-tpd:' + ('signature-of-the-recorded-finding(drifted-K start, own search from it finds nothing)' if signature
+                                               else 'NO-signature(fresh violation)'))
+            early = bool(sig.get('a_last_event_is_one_phase_stability_test_on_drifted_K') and sig.get('c_stop_rule_halts_both_trials_before_any_negative_distance'))
+            if early:
+                ctx.count('flash:negative-tpd:signature-find_W-stop-rule-halts-early')
             key = ('unstable-single-phase-hydrogen-rich-high-pressure' if specific else
-                   'unstable-single-phase-stability-test-started-from-drifted-K' if signature else 'negative-tangent-plane-distance')
+                   'unstable-single-phase-stability-test-started-from-drifted-K' if signature else
+                   'unstable-single-phase-stability-iteration-stopped-early' if early else 'negative-tangent-plane-distance')
             if c.get('K0') is not None and not res.get('warm_identical'):
                 # a warm-started flash whose result is NOT the cold result: the two known mechanisms above are findings about the cold
                 # start (Wilson K); an unstable one-phase answer produced from a caller-supplied K is reported on its own
                 key = 'warm-start:negative-tangent-plane-distance'
             ctx.violation(key,
                           'a trial composition has a negative tangent-plane distance from a feed reported as one phase',
-                          dict(case, row=row, tpd=t['min'], trial=t['arg'], wilson_started_stability_analysis=sig))
+                          dict(case, row=row, tpd=t['min'], trial=t['arg'], drifted_K_signature=sig))
 
 
 def boundary_feeds(ctx):
@@ -1014,6 +1093,23 @@ def trace_metamorphic(ctx, trace_results):
                           '<= 1e-6 of the feed mass (reference away from a phase boundary)', dict(case, masses=res['mm']))
             continue
         db = abs(res['rec']['mm']['beta'] - ref['rec']['mm']['beta'])
+        # beta is compared only where it is WELL CONDITIONED with respect to the K tolerance of the flash.  Successive substitution
+        # stops on the squared relative step of K (1.49e-8, i.e. |dK/K| ~ 1e-4 per step), which bounds the isofugacity residual —
+        # the property's clause — but not the distance to the fixed point when the iteration contracts slowly (near-critical states,
+        # all K close to 1): there two converged-by-the-rule flashes of (almost) the same feed return K vectors a few 1e-3 apart, both
+        # with equal fugacities to 1e-4, and beta = beta(K) moves by S * dlnK with
+        #   S = sum_i z_i K_i / d_i^2  /  sum_i z_i (K_i - 1)^2 / d_i^2   (implicit derivative of the Rachford-Rice root, d_i = 1 + beta (K_i - 1)).
+        # (triaged on nitrogen / CO2 / n-decane (+ 1e-8 hydrogen), 314.07 K, 39.37 MPa: beta 0.0205 vs 0.1385, S = 53, both results mass
+        # conserving, |f_gas/f_liq - 1| < 9e-5, each further substitution step still moves beta by 1e-3..3e-3.)
+        zr_ = np.array(ref['z'])
+        nzr = zr_ > 0.
+        Kr_ = np.array(ref['K'])[nzr]
+        dr_ = 1. + ref['rec']['mm']['beta'] * (Kr_ - 1.)
+        S = float(np.sum(zr_[nzr] * Kr_ / dr_ ** 2) / max(float(np.sum(zr_[nzr] * (Kr_ - 1.) ** 2 / dr_ ** 2)), 1e-300))
+        if S * TOL['flash_fugacity'] > 1e-3:
+            ctx.count('flash:trace-pair:beta-not-compared(ill-conditioned: S x 2e-4 > 1e-3)')
+            continue
+        ctx.count('flash:trace-pair:beta-compared')
         worst = max(worst, db)
         if not db <= TRACE_BETA_TOL:
             ctx.violation('trace-component-moves-gas-fraction', 'a component at <= 1e-6 of the feed mass moves the gas fraction by more than %g' % TRACE_BETA_TOL,
@@ -1070,7 +1166,7 @@ def run_flash(ctx, lean_ok, dbm):
             if not (cold.get('two') and np.all(np.isfinite(base[nzc]))):
                 fm = _fm(c['composition'])
                 with np.errstate(all='ignore'):
-                    base = np.exp(5.37 * (1. + fm.omega) * (1. - fm.Tc / c['T'])) / (c['P'] / fm.Pc)
+                    base = np.exp(5.37 * (1. + fm._ref['omega']) * (1. - fm._ref['Tc'] / c['T'])) / (c['P'] / fm._ref['Pc'])
             K0 = [float(b * math.exp(r.gauss(0., 1.))) for b in base]
         if kind == 'log-uniform':
             K0 = [scen_mix.log_uniform(r, 1e-3, 1e3) for _ in range(n)]
@@ -1179,7 +1275,7 @@ def run_flash(ctx, lean_ok, dbm):
                 if what in ('reduce-m', 'reduce-M', 'reduce-K0'):
                     cnt['reduce'] += 1
                     want = rec['mm']['m'] if what == 'reduce-m' else rec['mm']['M'] if what == 'reduce-M' else rec['mm']['K0']
-                    if not (isinstance(o, list) and close(o[0], want, 0.)):
+                    if not (isinstance(o, list) and close(o[0], want, 0. if what == 'reduce-m' else 1e-12)):
                         bad['reduce'] += 1
                         ctx.broken.append(('correspondence', 'Model.Flash.gather(mask m) vs arguments of equil_MM', 'case=%r model=%r code=%r' % (c, o, want)))
                 elif what == 'mm-end':
@@ -1274,16 +1370,16 @@ def run_targeted(ctx, dbm):
     try:
         dbm.equil_MM = lambda *a, **k: (np.array([[1. / 3, 4. / 9, 2. / 9], [1. / 3, 2. / 9, 4. / 9]]), 0.5, np.array([1., 2., 0.5]))
         with np.errstate(all='ignore'):
-            mm, xi, K = fm.equilibrium(fm.M.copy(), 300., 1e6)
+            mm, xi, K = fm.equilibrium(fm._ref['M'].copy(), 300., 1e6)
     finally:
         dbm.equil_MM = saved
-    good = bool(np.all(np.isfinite(mm))) and bool(np.all(mm >= 0.)) and bool(np.allclose(mm.sum(axis=0), fm.M, rtol=1e-12, atol=0.))
+    good = bool(np.all(np.isfinite(mm))) and bool(np.all(mm >= 0.)) and bool(np.allclose(mm.sum(axis=0), fm._ref['M'], rtol=1e-12, atol=0.))
     ctx.oblige('two-phase rows whose first component has K = 1 (z = (1/3,1/3,1/3), K = (1,2,1/2), beta = 1/2; Lean: witness_rows_are_rr_solution) '
                'pushed through the real back-conversion lines of FluidMixture.equilibrium conserve every component', good, repr(mm.tolist()))
     if not good:
         ctx.violation('ng-first-component-K=1', 'the back-conversion of FluidMixture.equilibrium does not conserve mass for two-phase rows whose first '
                       'component has K = 1 (equil_MM stubbed to return x_gas = (1/3,4/9,2/9), x_liq = (1/3,2/9,4/9), beta = 1/2)',
-                      {'composition': ['methane', 'ethane', 'propane'], 'm': fm.M.tolist(), 'T': 300., 'P': 1e6, 'K0': None, 'masses': mm.tolist()})
+                      {'composition': ['methane', 'ethane', 'propane'], 'm': fm._ref['M'].tolist(), 'T': 300., 'P': 1e6, 'K0': None, 'masses': mm.tolist()})
     # ---- (1) real states with K_first = 1 -----------------------------------------------------------------------------
     feeds = [(['propane', 'methane', 'n-decane'], [0.2, 0.3, 0.5], 320.)]
     mids = ['propane', 'n-butane', 'isobutane', 'n-pentane', 'ethane', 'carbon_dioxide', 'hydrogen_sulfide']
